@@ -41,7 +41,7 @@ ASSUMPTIONS = [
     "configurations with inverted limits (explicit vmin > vmax, negative half_range, lower_quantile > upper_quantile) are outside 'lower and upper limits'; they are run for correspondence only",
     "LinearStretch is in the quantifier only with its default slope/intercept (CustomNormalization cannot set them); other values: correspondence only",
     "in lazy mode (no data= at construction) the limits are recomputed from the argument; the limits clause is then evaluated only where a probe leaves them exactly unchanged (manual limits, centered with half_range); automatic centered/quantile limits are covered by the frozen mode",
-    "floating point: range/monotone/limits/inverse clauses are evaluated with slack 0 on the linear float64/int path, 1e-12 (float64) or 2e-6 (float32) after a transcendental stretch, 1e-9 (float64) / 5e-4 (float32) for S∘S.inverse",
+    "floating point: range/monotone/limits/inverse clauses are evaluated with slack 0 on the linear float64/int path, 1e-12 (float64) or 1e-4 (float32) after a transcendental stretch, 1e-9 (float64) / 5e-4 (float32) for S∘S.inverse",
     "0-d and empty arrays, bool/complex dtypes and float16 are outside the quantifier (bool: correspondence only)",
 ]
 EXPLANATION = ("Theorems in Props/C20.lean are about Generated/Stretch.lean (regenerated from the source each run) and Model/Norm.lean; "
@@ -350,7 +350,8 @@ def slack(cfg, arr_dtype):
     f32 = str(arr_dtype) == "float32"
     if sel and sel[0] == "LinearStretch":
         return 0.0
-    return 2e-6 if f32 else 1e-12
+    # float32: a*x+1 and (x-vmin) carry 6e-8 round-off, amplified by 1/log(1+a) (a >= 0.01) or by the power (<= 9)
+    return 1e-4 if f32 else 1e-12
 
 
 # ---------------------------------------------------------------------------------------
@@ -523,6 +524,28 @@ def compare_norm(ctx, case, impl, m):
                     break
 
 
+def clauses_range_mono_nan(ctx, case, sig, xs, out, t):
+    """clauses (1) finite -> [0, 1], (4) NaN stays masked, (2) non-decreasing; False after reporting a failure"""
+    for i, (x, y) in enumerate(zip(xs, out)):
+        if isinstance(x, float) and x != x:
+            if y is not None:
+                ctx.pred_fail("nan-unmasked:" + sig, "a NaN pixel came back as a number", case, observed={"i": i, "out": y}, required="masked")
+                return False
+        elif not (isinstance(x, float) and math.isinf(x)):
+            if y is None or y != y or not (-t <= y <= 1.0 + t):
+                ctx.pred_fail("range:" + sig, "finite pixel not mapped into [0, 1]", case, observed={"i": i, "x": x, "out": y},
+                              required="number in [0, 1]")
+                return False
+    pairs = sorted(((x, y) for x, y in zip(xs, out) if not (isinstance(x, float) and (x != x or math.isinf(x))) and y is not None),
+                   key=lambda p: p[0])
+    for (x0, y0), (x1, y1) in zip(pairs, pairs[1:]):
+        if (x1 > x0 and y1 < y0 - t) or (x1 == x0 and abs(y1 - y0) > t):
+            ctx.pred_fail("monotone:" + sig, "normalisation is not non-decreasing in the data value", case,
+                          observed={"x": [x0, x1], "out": [y0, y1]}, required="out(x0) <= out(x1) for x0 < x1")
+            return False
+    return True
+
+
 def predicate_norm(ctx, case, impl):
     """the clauses of C20 on the real outputs (only for inputs inside the quantifier)"""
     np = _np()
@@ -541,27 +564,8 @@ def predicate_norm(ctx, case, impl):
         return
     t = slack(cfg, arr.dtype)
     flat = arr.ravel()
-    xs = flat.tolist()
-    out = impl["out"]
-    # (1) finite data -> number in [0, 1]; (4) NaN stays masked
-    for i, (x, y) in enumerate(zip(xs, out)):
-        if isinstance(x, float) and x != x:
-            if y is not None:
-                ctx.pred_fail("nan-unmasked:" + sig, "a NaN pixel came back as a number", case, observed={"i": i, "out": y}, required="masked")
-                return
-        elif not (isinstance(x, float) and math.isinf(x)):
-            if y is None or y != y or not (-t <= y <= 1.0 + t):
-                ctx.pred_fail("range:" + sig, "finite pixel not mapped into [0, 1]", case, observed={"i": i, "x": x, "out": y},
-                              required="number in [0, 1]")
-                return
-    # (2) non-decreasing in the data value
-    pairs = sorted(((x, y) for x, y in zip(xs, out) if not (isinstance(x, float) and (x != x or math.isinf(x))) and y is not None),
-                   key=lambda p: p[0])
-    for (x0, y0), (x1, y1) in zip(pairs, pairs[1:]):
-        if (x1 > x0 and y1 < y0 - t) or (x1 == x0 and abs(y1 - y0) > t):
-            ctx.pred_fail("monotone:" + sig, "normalisation is not non-decreasing in the data value", case,
-                          observed={"x": [x0, x1], "out": [y0, y1]}, required="out(x0) <= out(x1) for x0 < x1")
-            return
+    if not clauses_range_mono_nan(ctx, case, sig, flat.tolist(), impl["out"], t):
+        return
     # (3) the interval's limits go to 0 and 1
     lo, hi = impl.get("vmin"), impl.get("vmax")
     if lo is None or hi is None or not (lo < hi):
@@ -596,7 +600,7 @@ def predicate_norm(ctx, case, impl):
             return
     ctx.dist["norm:limits-clause-checked"] += 1
     # a float32 probe is normalised in float32: (hi32 - lo32) / (hi - lo) is 1 only up to float32 rounding
-    tl = max(t, 2e-6) if (arr.dtype == np.float32 and case["mode"] != "frozen") else t
+    tl = max(t, 1e-4) if (arr.dtype == np.float32 and case["mode"] != "frozen") else t
     if probe is None or probe[0] is None or probe[1] is None or abs(probe[0]) > tl or abs(probe[1] - 1.0) > tl:
         ctx.pred_fail("limits:" + sig, "the interval's lower/upper limits are not sent to 0 and 1", case,
                       observed={"vmin": lo, "vmax": hi, "norm([vmin, vmax])": probe}, required=[0.0, 1.0])
@@ -629,12 +633,12 @@ def one_norm(ctx, drv, case):
     compare_norm(ctx, case, impl, m)
     predicate_norm(ctx, case, impl)
     ctx.sample({"stream": "norm", "dtype": d["dtype"], "shape": d["shape"], "values": d["values"][:8], "cfg": {k: v for k, v in cfg.items() if v != DEFAULT_CFG[k]},
-                "mode": case["mode"], "vmin": impl.get("vmin"), "vmax": impl.get("vmax"), "out": (impl.get("out") or [])[:8]}, limit=3)
+                "mode": case["mode"], "vmin": impl.get("vmin"), "vmax": impl.get("vmax"), "out": (impl.get("out") or [])[:8]}, limit=4)
 
 
 def stream_norm(ctx, drv):
     cn = _cn()
-    n = ctx.n(420, 9000)
+    n = ctx.n(1500, 30000)
     presets = sorted(cn.NORMALIZATION_PRESETS)
     for i in range(n):
         rng = ctx.rng.fork(i)
@@ -654,7 +658,7 @@ def stream_norm(ctx, drv):
             case["inv"] = [0.0, 0.25, 0.5, 1.0, nice(rng, rng.random())]
         one_norm(ctx, drv, case)
     # malformed / boundary stream: bool images, constant images, all-NaN images
-    for i in range(ctx.n(40, 400)):
+    for i in range(ctx.n(80, 800)):
         rng = ctx.rng.fork(1_000_000 + i)
         kind = rng.choice(["bool", "constant", "allnan", "constant-int"])
         m = rng.randint(2, 9)
@@ -795,11 +799,11 @@ def one_stretch(ctx, drv, case):
                                       observed={"y": x, "stretch(inverse(y))": c}, required=x)
                         break
     ctx.sample({"stream": "stretch", "cls": cls, "params": params, "xs": case["xs"][:5], "ys": (impl.get("ys") or [])[:5],
-                "inverse": [impl.get("inv_cls"), impl.get("inv_params")], "comp": (impl.get("comp") or [])[:5]}, limit=5)
+                "inverse": [impl.get("inv_cls"), impl.get("inv_params")], "comp": (impl.get("comp") or [])[:5]}, limit=2)
 
 
 def stream_stretch(ctx, drv):
-    for i in range(ctx.n(240, 6000)):
+    for i in range(ctx.n(600, 20000)):
         rng = ctx.rng.fork(2_000_000 + i)
         one_stretch(ctx, drv, gen_stretch_case(rng, i))
     # dataclass defaults as the translator read them
@@ -928,9 +932,232 @@ def stream_resolve(ctx, drv):
     if model != impl:
         ctx.disagree("resolve", {"stream": "presets"}, model, impl, note="NORMALIZATION_PRESETS table (names, order, fields)")
     ctx.extra["presets_enumerated"] = len(impl)
-    for i in range(ctx.n(80, 1500)):
+    for i in range(ctx.n(200, 4000)):
         rng = ctx.rng.fork(3_000_000 + i)
         one_resolve(ctx, drv, gen_resolve_case(rng, i, presets))
+
+
+# ---------------------------------------------------------------------------------------
+# stream "show": the visualization.py callers (_show_2d_array, _show_2d_combined)
+
+_FIG = {}
+
+
+def _figax():
+    if "fa" not in _FIG:
+        import matplotlib
+        matplotlib.use("Agg")
+        import matplotlib.pyplot as plt
+        _FIG["fa"] = plt.subplots(figsize=(1, 1))
+    fig, ax = _FIG["fa"]
+    ax.clear()
+    return fig, ax
+
+
+def gen_show_case(rng, i):
+    np = _np()
+    which = "array" if i % 2 == 0 else "combined"
+    k = 1 if which == "array" else rng.randint(1, 3)
+    d0 = gen_data(rng)
+    n = len(d0["values"])
+    divs = [d for d in range(1, n + 1) if n % d == 0]
+    r = rng.choice(divs)
+    arrays = []
+    for j in range(k):
+        d = d0 if j == 0 else None
+        while d is None or len(d["values"]) != n or d["dtype"] != d0["dtype"]:
+            d = gen_data(rng)
+            if len(d["values"]) >= n:
+                d = {"dtype": d["dtype"], "shape": [n], "values": d["values"][:n]}
+            if d["dtype"] != d0["dtype"]:
+                d = None
+                continue
+            a = build_array(d).ravel()
+            fin = a[np.isfinite(a)] if a.dtype.kind == "f" else a
+            if len(set(fin.tolist())) < 2:
+                d = None
+        d = dict(d)
+        d["shape"] = [r, n // r]
+        arrays.append(d)
+    arr = build_array(arrays[0])
+    flat = arr.ravel()
+    fin = flat[np.isfinite(flat)] if flat.dtype.kind == "f" else flat
+    fmin, fmax = float(fin.min()), float(fin.max())
+    span = fmax - fmin
+    lo = nice(rng, fmin + span * rng.uniform(-0.2, 0.4))
+    hi = nice(rng, lo + span * rng.uniform(0.1, 0.9))
+    if not hi > lo:
+        hi = lo + 1.0
+    if rng.chance(0.4):
+        lo, hi = int(math.floor(lo)), int(math.floor(hi)) + 1
+    kind = rng.weighted([("kw-limits", 4), ("kw-quantile", 2), ("none", 1), ("name", 3), ("dict", 3), ("config", 1.5)])
+    case = {"stream": "show", "which": which, "kind": kind, "norm": None, "kwargs": [], "arrays": arrays}
+    if kind == "kw-limits":
+        r_ = rng.random()
+        if r_ < 0.6:
+            case["kwargs"] = [["vmin", lo], ["vmax", hi]]
+        elif r_ < 0.8:
+            case["kwargs"] = [["vmin", lo]]
+        else:
+            case["kwargs"] = [["vmax", hi]]
+        if rng.chance(0.4):
+            case["kwargs"].append(["stretch_type", rng.choice(["logarithmic", "asinh", "linear"])])
+    elif kind == "kw-quantile":
+        a, b = sorted([round(rng.random() * 0.4, 2), round(1 - rng.random() * 0.4, 2)])
+        case["kwargs"] = rng.choice([[["lower_quantile", a], ["upper_quantile", b]], [["lower_quantile", a]], [["upper_quantile", b]]])
+    elif kind == "name":
+        case["norm"] = rng.choice(sorted(_cn().NORMALIZATION_PRESETS) + ["nope"])
+    elif kind in ("dict", "config"):
+        c = gen_cfg(rng, arr)
+        d = {k_: v for k_, v in c.items() if v != DEFAULT_CFG[k_] or rng.chance(0.2)}
+        if rng.chance(0.5):
+            d.update({"interval_type": "manual", "vmin": lo, "vmax": hi})
+        case["norm"] = d
+    return case
+
+
+def one_show(ctx, drv, case):
+    np = _np()
+    cn = _cn()
+    from quantem.core.visualization import visualization as vis
+    arrays = [build_array(d) for d in case["arrays"]]
+    kwargs = {k: v for k, v in case["kwargs"]}
+    norm_arg = case["norm"]
+    if case["kind"] == "config":
+        norm_arg = cn.NormalizationConfig(**case["norm"])
+    rec = {}
+    real_cn, real_a2r, real_l2r = vis.CustomNormalization, vis.array_to_rgba, vis.list_of_arrays_to_rgba
+
+    def rec_cn(*a, **k):
+        rec["norm"] = real_cn(*a, **k)
+        return rec["norm"]
+
+    def fake_a2r(scaled, angle=None, **k):
+        rec["scaled"] = [scaled]
+        return np.zeros(tuple(np.shape(scaled)) + (4,))
+
+    def fake_l2r(lst, *, norm, chroma_boost=1):
+        rec["scaled"] = [norm(a) for a in lst]          # what list_of_arrays_to_rgba does first
+        return np.zeros(tuple(np.shape(lst[0])) + (4,))
+
+    vis.CustomNormalization, vis.array_to_rgba, vis.list_of_arrays_to_rgba = rec_cn, fake_a2r, fake_l2r
+    impl = {}
+    try:
+        if case["which"] == "array":
+            vis._show_2d_array(arrays[0], norm=norm_arg, figax=_figax(), **kwargs)
+        else:
+            vis._show_2d_combined(arrays, norm=norm_arg, figax=_figax(), **kwargs)
+        norm = rec["norm"]
+        impl = {"stretch": type(norm.stretch).__name__, "interval": interval_view(norm.interval),
+                "attr_vmin": None if norm.vmin is None else float(norm.vmin), "attr_vmax": None if norm.vmax is None else float(norm.vmax),
+                "outs": []}
+        for sc in rec["scaled"]:
+            m_ = np.ma.getmaskarray(sc).ravel().tolist()
+            v_ = np.ma.getdata(sc).ravel().tolist()
+            impl["outs"].append([None if mm else float(vv) for vv, mm in zip(v_, m_)])
+    except Exception as e:  # noqa
+        impl = {"err": err_name(e), "msg": str(e)[:200]}
+    finally:
+        vis.CustomNormalization, vis.array_to_rgba, vis.list_of_arrays_to_rgba = real_cn, real_a2r, real_l2r
+    # ---- model
+    kind = case["kind"]
+    if norm_arg is None:
+        jn = None
+    elif kind == "name":
+        jn = {"name": case["norm"]}
+    elif kind == "dict":
+        jn = {"dict": [[k, kw_to_driver(v)] for k, v in case["norm"].items()]}
+    else:
+        full = dict(DEFAULT_CFG)
+        full.update(case["norm"])
+        jn = {"config": cfg_to_driver(full)}
+    m = drv.ask({"op": "show", "which": case["which"], "norm": jn, "kwargs": [[k, kw_to_driver(v)] for k, v in case["kwargs"]],
+                 "arrays": [[fbits(v) for v in a.ravel().tolist()] for a in arrays]})
+    if str(m.get("err", "")).startswith("driver"):
+        raise RuntimeError(f"driver error {m}")
+    ctx.count()
+    dt = case["arrays"][0]["dtype"]
+    ctx.dist["show:" + case["which"]] += 1
+    ctx.dist["show:kind:" + kind] += 1
+    ctx.dist["show:outcome:" + (impl.get("err") or "ok")] += 1
+    ctx.mark(("show", case["which"], kind, dt, impl.get("err") or "ok", impl.get("stretch"), tuple(sorted(kwargs)), len(arrays)))
+    f32 = dt == "float32"
+    # ---- correspondence
+    if "err" in impl or "err" in m:
+        if impl.get("err") != m.get("err"):
+            ctx.disagree("show", case, {"err": m.get("err")}, {"err": impl.get("err"), "msg": impl.get("msg")}, note="outcome (error kind)")
+    else:
+        mo = m["ok"]
+        miv = {k: (v if (v is None or isinstance(v, str)) else unbits(v)) for k, v in mo["interval"].items()}
+        mv = {"stretch": mo["stretch"], "interval": miv, "attr_vmin": unbits(mo["attr_vmin"]), "attr_vmax": unbits(mo["attr_vmax"])}
+        iv = {k: impl[k] for k in ("stretch", "interval", "attr_vmin", "attr_vmax")}
+        same = mv["stretch"] == iv["stretch"] and set(miv) == set(iv["interval"])
+        if same:
+            for k in list(miv) + ["attr_vmin", "attr_vmax"]:
+                a = miv[k] if k in miv else mv[k]
+                b = iv["interval"][k] if k in miv else iv[k]
+                if isinstance(a, str) or isinstance(b, str):
+                    same = same and a == b
+                else:
+                    same = same and close(a, b, 5e-4 if f32 else 0.0, max(1.0, abs(a or 0.0)))
+        if not same:
+            ctx.disagree("show", case, mv, iv, note="normalisation object built by the caller (stretch / interval / limits)")
+        else:
+            sel_lin = mo["stretch"] == "LinearStretch"
+            tol = 5e-4 if f32 else (0.0 if sel_lin else 1e-9)
+            steep = f32 and not sel_lin        # see compare_norm: float32 + steep stretch is compared through stream "norm"
+            for j, (mo_, io_) in enumerate(zip(mo["outs"], impl["outs"])):
+                mo_ = [unbits(b) for b in mo_]
+                bad = [i for i, (a, b) in enumerate(zip(mo_, io_)) if not close(a, b, tol, 1.0)]
+                if bad and not steep:
+                    i = bad[0]
+                    ctx.disagree("show", case, {"array": j, "i": i, "out": mo_[i]}, {"array": j, "i": i, "out": io_[i]},
+                                 note=f"normalised pixel (tol {tol})")
+                    break
+    # ---- property clauses on what the caller displays
+    try:
+        rc = cn._resolve_normalization(norm_arg, **kwargs)
+        cfg = {k: getattr(rc, k) for k in CFG_FIELDS}
+    except Exception:  # noqa
+        ctx.dist["show:outside-quantifier:unresolvable"] += 1
+        return
+    for j, arr in enumerate(arrays):
+        ok, why = admissible(cfg, arr)
+        if not ok:
+            ctx.dist["show:outside-quantifier:" + why] += 1
+            continue
+        sel = selected_stretch(cfg)
+        sig = f"show-{case['which']}:{dt}:{cfg['interval_type']}:{sel[0]}"
+        if "err" in impl:
+            ctx.pred_fail("raises:" + sig, f"{'_show_2d_' + case['which']} raised {impl['err']} on an admissible array/configuration ({impl.get('msg')})",
+                          case, observed=impl["err"], required="finite data mapped into [0, 1]")
+            return
+        t = slack(cfg, arr.dtype)
+        if not clauses_range_mono_nan(ctx, case, sig, arr.ravel().tolist(), impl["outs"][j], t):
+            return
+        # the configuration's explicit limits go to 0 and 1
+        if cfg["interval_type"] == "manual" and cfg["vmin"] is not None and cfg["vmax"] is not None and cfg["vmin"] < cfg["vmax"]:
+            ctx.dist["show:limits-clause-checked"] += 1
+            p = rec["norm"](np.array([cfg["vmin"], cfg["vmax"]], dtype=np.float64))
+            pm = np.ma.getmaskarray(p).ravel().tolist()
+            pv = [None if mm else float(vv) for vv, mm in zip(np.ma.getdata(p).ravel().tolist(), pm)]
+            if pv[0] is None or pv[1] is None or abs(pv[0]) > t or abs(pv[1] - 1.0) > t:
+                ctx.pred_fail("limits:" + sig, "the configured lower/upper limits are not sent to 0 and 1 by the normalisation the caller builds",
+                              case, observed={"vmin": cfg["vmin"], "vmax": cfg["vmax"], "norm([vmin, vmax])": pv}, required=[0.0, 1.0])
+                return
+    ctx.sample({"stream": "show", "which": case["which"], "norm": case["norm"], "kwargs": case["kwargs"], "dtype": dt,
+                "shape": case["arrays"][0]["shape"], "built": {k: impl.get(k) for k in ("stretch", "interval")}}, limit=6)
+
+
+def stream_show(ctx, drv):
+    try:
+        for i in range(ctx.n(240, 3000)):
+            rng = ctx.rng.fork(4_000_000 + i)
+            one_show(ctx, drv, gen_show_case(rng, i))
+    finally:
+        if "fa" in _FIG:
+            import matplotlib.pyplot as plt
+            plt.close(_FIG.pop("fa")[0])
 
 
 # ---------------------------------------------------------------------------------------
@@ -944,6 +1171,7 @@ def run(ctx):
         stream_stretch(ctx, drv)
         stream_norm(ctx, drv)
         stream_resolve(ctx, drv)
+        stream_show(ctx, drv)
     finally:
         drv.close()
 
@@ -956,13 +1184,13 @@ def replay(ctx, rep):
     if case is None:
         ds = rep.get("correspondence_disagreements") or rep.get("disagreements") or [{}]
         case = ds[0].get("case")
-    if not case or case.get("stream") not in ("norm", "stretch", "resolve"):
+    if not case or case.get("stream") not in ("norm", "stretch", "resolve", "show"):
         print("replay: no replayable case in file (tie-only report); re-running the quick streams")
         run(ctx)
         return True
     drv = Driver("C20")
     try:
-        {"norm": one_norm, "stretch": one_stretch, "resolve": one_resolve}[case["stream"]](ctx, drv, case)
+        {"norm": one_norm, "stretch": one_stretch, "resolve": one_resolve, "show": one_show}[case["stream"]](ctx, drv, case)
     finally:
         drv.close()
     return True
